@@ -898,8 +898,10 @@ def hist_c20(out, sim, rng, n, extra):
     for i in range(nmsg):
         kind = 'app' if rng.random() < 0.7 else 'hb'
         plan.append((kind, i in lost_at, i in reconnect_at))
-    plan.append(('hb', False, False))       # something arrives after the last loss so that it can be noticed
-    plan.append(('app', False, False))
+    # something arrives after the last loss so that it can be noticed: ONE message must be enough to start the recovery
+    tail = rng.choice(['hb', 'app', 'hb+app'])
+    for k in tail.split('+'):
+        plan.append((k, False, False))
     delivered = set()
     sent_ids = []
     queue = []              # messages in flight towards the session (bytes)
